@@ -82,7 +82,47 @@ def units_for(prop):
     return out
 
 
+_SRC_HASH = {}
+
+
+def source_hash():
+    """Digest of everything a unit's verdict depends on: the repository sources it parses, the engine and the contracts."""
+    if 'h' not in _SRC_HASH:
+        import hashlib
+        h = hashlib.sha256()
+        for d in (os.path.join(REPO, 'disk_objectstore'), os.path.join(HERE, 'pyvc'), os.path.join(HERE, 'contracts')):
+            for f in sorted(os.listdir(d)):
+                if f.endswith('.py'):
+                    h.update(f.encode() + b'\0' + open(os.path.join(d, f), 'rb').read() + b'\0')
+        h.update(open(os.path.join(HERE, 'baseline_obligations.json'), 'rb').read() if os.path.exists(os.path.join(HERE, 'baseline_obligations.json')) else b'')
+        _SRC_HASH['h'] = h.hexdigest()
+    return _SRC_HASH['h']
+
+
 def run_unit(u, budget, scale=1):
+    """Verify one unit in a worker process. The verdict is a function of (repository sources, engine, contracts, unit,
+    solver budget); verdicts are memoised under out/cache by the digest of exactly those inputs, so that the properties
+    sharing a unit do not re-prove it within one session. VERIF_NO_CACHE=1 disables the memo."""
+    import hashlib
+    key = hashlib.sha256(f"{source_hash()}|{u['module']}|{u['name']}|{scale}|{env().get('PYVC_TIMEOUT_MS')}".encode()).hexdigest()[:32]
+    cpath = os.path.join(OUT, 'cache', key + '.json')
+    if not os.environ.get('VERIF_NO_CACHE') and os.path.exists(cpath):
+        try:
+            d = json.load(open(cpath))
+            d['from_memo'] = True
+            return d
+        except Exception:
+            pass
+    d = _run_unit(u, budget, scale)
+    if d.get('status') in ('ok', 'undecided') and 'time budget' not in d.get('reason', ''):
+        os.makedirs(os.path.dirname(cpath), exist_ok=True)
+        tmp = cpath + f'.{os.getpid()}.tmp'
+        json.dump(d, open(tmp, 'w'))
+        os.replace(tmp, cpath)
+    return d
+
+
+def _run_unit(u, budget, scale=1):
     t0 = time.time()
     e = env()
     e['PYVC_TIMEOUT_SCALE'] = str(scale)
